@@ -308,6 +308,8 @@ theorem except_bind_ite {ε α β} (c : Prop) [Decidable c] (e : ε) (v : α) (k
 theorem except_bind_ok {ε α β} (v : α) (k : α → Except ε β) : Except.bind (Except.ok v) k = k v := rfl
 theorem except_bind_error {ε α β} (e : ε) (k : α → Except ε β) : Except.bind (Except.error e : Except ε α) k = .error e := rfl
 
+
+
 def normHi (n : Int) (hi : Option Int) : Int :=
   match hi with
   | none => n
@@ -316,10 +318,11 @@ def normHi (n : Int) (hi : Option Int) : Int :=
 theorem ite_ov (x : Int) : (if (x % 8 == 0) = true then (0 : Int) else 1) = if x % 8 = 0 then 0 else 1 := by
   simp
 
+/-- What an accepted slice is: a well-formed view of elements `[L, E)`, `E = max(stop, L)`. -/
 theorem slice_spec (h : Heap) (p : PBA) (hwf : WF h p) (lo hi : Option Int) (q : PBA)
     (hq : slice p lo hi none = .ok q) (L E : Nat) (hL : lo.getD 0 = (L : Int))
-    (hE : normHi p.n hi = (E : Int)) (hLE : L ≤ E) :
-    WF h q ∧ q.A = p.A + L ∧ q.n = E - L ∧ q.own = false := by
+    (hE : max (normHi p.n hi) L = (E : Int)) :
+    WF h q ∧ q.A = p.A + L ∧ q.n = E - L ∧ q.own = false ∧ L ≤ E ∧ E ≤ p.n := by
   obtain ⟨off, len, start, stop, own⟩ := p
   obtain ⟨h1, h2, h3, h4, h5⟩ := hwf
   simp only at h1 h2 h3 h4 h5
@@ -337,22 +340,28 @@ theorem slice_spec (h : Heap) (p : PBA) (hwf : WF h p) (lo hi : Option Int) (q :
   · -- [:]
     repeat' (split at hq)
     all_goals (first | cases hq | skip)
-    refine ⟨⟨?_, ?_, ?_, ?_, ?_⟩, ?_, ?_, ?_⟩ <;> (try simp only []) <;> omega
+    refine ⟨⟨?_, ?_, ?_, ?_, ?_⟩, ?_, ?_, ?_, ?_, ?_⟩ <;> (try simp only []) <;> omega
   · -- [:hi]
+    rename_i ke
+    generalize (if ke < 0 then ke + ((e : Int) - start) else ke) = E0 at hq hE
+    obtain rfl : L = 0 := by omega
+    simp only [Int.ofNat_zero] at hE
     simp only [hE, ite_ov] at hq
     generalize hov : (if ((E : Int) - 0 + (start : Int)) % 8 = 0 then (0 : Int) else 1) = ov at hq
     have hov' : (((E : Int) + start) % 8 = 0 → ov = 0) ∧ (((E : Int) + start) % 8 ≠ 0 → ov = 1) := by
       subst hov; constructor <;> intro hh <;> simp [hh]
     repeat' (split at hq)
     all_goals (first | cases hq | skip)
-    refine ⟨⟨?_, ?_, ?_, ?_, ?_⟩, ?_, ?_, ?_⟩ <;> (try simp only []) <;> omega
+    refine ⟨⟨?_, ?_, ?_, ?_, ?_⟩, ?_, ?_, ?_, ?_, ?_⟩ <;> (try simp only []) <;> omega
   · -- [lo:]
     subst hL
     repeat' (split at hq)
     all_goals (first | cases hq | skip)
-    refine ⟨⟨?_, ?_, ?_, ?_, ?_⟩, ?_, ?_, ?_⟩ <;> (try simp only []) <;> omega
+    refine ⟨⟨?_, ?_, ?_, ?_, ?_⟩, ?_, ?_, ?_, ?_, ?_⟩ <;> (try simp only []) <;> omega
   · -- [lo:hi]
+    rename_i ks ke
     subst hL
+    generalize (if ke < 0 then ke + ((e : Int) - start) else ke) = E0 at hq hE
     simp only [hE, ite_ov] at hq
     generalize hov : (if ((E : Int) - L + ((L : Int) + (start : Int)) % 8) % 8 = 0 then (0 : Int) else 1) = ov at hq
     have hov' : (((E : Int) + start) % 8 = 0 → ov = 0) ∧ (((E : Int) + start) % 8 ≠ 0 → ov = 1) := by
@@ -361,20 +370,15 @@ theorem slice_spec (h : Heap) (p : PBA) (hwf : WF h p) (lo hi : Option Int) (q :
       · rw [if_neg (by omega)]
     repeat' (split at hq)
     all_goals (first | cases hq | skip)
-    refine ⟨⟨?_, ?_, ?_, ?_, ?_⟩, ?_, ?_, ?_⟩ <;> (try simp only []) <;> omega
+    refine ⟨⟨?_, ?_, ?_, ?_, ?_⟩, ?_, ?_, ?_, ?_, ?_⟩ <;> (try simp only []) <;> omega
 
-/-- The exact acceptance condition of `self[lo:hi]` on a well-formed view with bit offset `s`
-    and `n` elements. -/
-def sliceAccepts (s : Nat) (n : Int) (lo hi : Option Int) : Prop :=
-  (0 ≤ lo.getD 0 ∧ lo.getD 0 ≤ n) ∧
-  match hi with
-  | none => True
-  | some _ =>
-    normHi n hi ≤ n ∧ (lo.getD 0 + s) % 8 ≤ normHi n hi ∧
-      (lo.getD 0 + s) / 8 * 8 ≤ normHi n hi + s + 7
+/-- The exact acceptance condition of `self[lo:hi]` on a well-formed view with `n` elements:
+    the start (if given) lies in `[0, n]` and the normalised stop (if given) is at most `n`. -/
+def sliceAccepts (n : Int) (lo hi : Option Int) : Prop :=
+  (0 ≤ lo.getD 0 ∧ lo.getD 0 ≤ n) ∧ normHi n hi ≤ n
 
 theorem slice_ok_iff (h : Heap) (p : PBA) (hwf : WF h p) (lo hi : Option Int) :
-    (∃ q, slice p lo hi none = .ok q) ↔ sliceAccepts p.start p.n lo hi := by
+    (∃ q, slice p lo hi none = .ok q) ↔ sliceAccepts p.n lo hi := by
   obtain ⟨off, len, start, stop, own⟩ := p
   obtain ⟨h1, h2, h3, h4, h5⟩ := hwf
   simp only at h1 h2 h3 h4 h5
@@ -393,10 +397,11 @@ theorem slice_ok_iff (h : Heap) (p : PBA) (hwf : WF h p) (lo hi : Option Int) :
                · rintro ⟨q, hq⟩; first | (cases hq; done) | ((repeat' apply And.intro) <;> first | trivial | omega)
                · intro hC; first | exact ⟨_, rfl⟩ | (exfalso; omega))
   · rename_i ke
-    generalize (if ke < 0 then ke + ((e : Int) - start) else ke) = E'
+    generalize (if ke < 0 then ke + ((e : Int) - start) else ke) = E0
+    generalize hM : max E0 0 = M
     simp only [ite_ov]
-    generalize hov : (if (E' - 0 + (start : Int)) % 8 = 0 then (0 : Int) else 1) = ov
-    have hov' : ((E' + start) % 8 = 0 → ov = 0) ∧ ((E' + start) % 8 ≠ 0 → ov = 1) := by
+    generalize hov : (if (M - 0 + (start : Int)) % 8 = 0 then (0 : Int) else 1) = ov
+    have hov' : ((M + start) % 8 = 0 → ov = 0) ∧ ((M + start) % 8 ≠ 0 → ov = 1) := by
       subst hov; constructor <;> intro hh
       · rw [if_pos (by omega)]
       · rw [if_neg (by omega)]
@@ -409,10 +414,11 @@ theorem slice_ok_iff (h : Heap) (p : PBA) (hwf : WF h p) (lo hi : Option Int) :
                · rintro ⟨q, hq⟩; first | (cases hq; done) | ((repeat' apply And.intro) <;> first | trivial | omega)
                · intro hC; first | exact ⟨_, rfl⟩ | (exfalso; omega))
   · rename_i ks ke
-    generalize (if ke < 0 then ke + ((e : Int) - start) else ke) = E'
+    generalize (if ke < 0 then ke + ((e : Int) - start) else ke) = E0
+    generalize hM : max E0 ks = M
     simp only [ite_ov]
-    generalize hov : (if (E' - ks + (ks + (start : Int)) % 8) % 8 = 0 then (0 : Int) else 1) = ov
-    have hov' : ((E' + start) % 8 = 0 → ov = 0) ∧ ((E' + start) % 8 ≠ 0 → ov = 1) := by
+    generalize hov : (if (M - ks + (ks + (start : Int)) % 8) % 8 = 0 then (0 : Int) else 1) = ov
+    have hov' : ((M + start) % 8 = 0 → ov = 0) ∧ ((M + start) % 8 ≠ 0 → ov = 1) := by
       subst hov; constructor <;> intro hh
       · rw [if_pos (by omega)]
       · rw [if_neg (by omega)]
@@ -420,7 +426,6 @@ theorem slice_ok_iff (h : Heap) (p : PBA) (hwf : WF h p) (lo hi : Option Int) :
     all_goals (constructor
                · rintro ⟨q, hq⟩; first | (cases hq; done) | ((repeat' apply And.intro) <;> first | trivial | omega)
                · intro hC; first | exact ⟨_, rfl⟩ | (exfalso; omega))
-
 
 theorem fml_ok (rd : Nat → Byte) (len start e : Nat) (mask : Bool)
     (h2 : start ≤ e) (h3 : 8 * len ≤ e + 7) (h4 : e ≤ 8 * len) :
@@ -628,26 +633,18 @@ theorem combinePBA_spec (h : Heap) (p q : PBA) (hp : WF h p) (hq : WF h q)
     unfold Disjoint at hd
     omega
 
-theorem opPBA_spec (h : Heap) (p q : PBA) (hp : WF h p) (hq : WF h q)
+theorem opPBACore_spec (h : Heap) (p q : PBA) (hp : WF h p) (hq : WF h q)
     (hs : q.start = p.start) (he : q.stop = p.stop) (hd : Disjoint p q) (op : Op) :
-    ∃ h', opPBA h p q op = .ok h' ∧ Rewrites h h' p (fun k x => op.bool x (opnd h p q k)) := by
+    ∃ h', opPBACore h p q op = .ok h' ∧ Rewrites h h' p (fun k x => op.bool x (opnd h p q k)) := by
   obtain ⟨f, g, h', hf, hg, e, R⟩ := combinePBA_spec h p q hp hq hs he hd op.bool op.byte
     (fun x y t ht => Op_byte_getLsbD' op x y t ht)
-  exact ⟨h', by simp only [opPBA, hf, hg, bind, Except.bind]; exact e, R⟩
+  exact ⟨h', by simp only [opPBACore, hf, hg, bind, Except.bind]; exact e, R⟩
 
 theorem WF.pyLen {h : Heap} {p : PBA} (hwf : WF h p) : p.pyLen = .ok p.n := by
   obtain ⟨h1, h2, h3, h4, h5⟩ := hwf
   unfold PBA.pyLen
   have : ¬ p.size < 0 := by simp only [PBA.size]; omega
   rw [if_neg this]; rfl
-
-theorem iopPBA_spec (h : Heap) (p q : PBA) (hp : WF h p) (hq : WF h q)
-    (hs : q.start = p.start) (he : q.stop = p.stop) (hd : Disjoint p q) (op : Op) :
-    ∃ h', iopPBA h p q op = .ok h' ∧ Rewrites h h' p (fun k x => op.bool x (opnd h p q k)) := by
-  obtain ⟨h', e, R⟩ := opPBA_spec h p q hp hq hs he hd op
-  refine ⟨h', ?_, R⟩
-  have : q.n = p.n := by simp only [PBA.n, hs, he]
-  simp [iopPBA, hp.pyLen, hq.pyLen, this, hs, e, bind, Except.bind]
 
 theorem Rewrites.refl_empty (h : Heap) (p : PBA) (F) (hn : p.n = 0) : Rewrites h h p F :=
   ⟨rfl, fun k => by rw [if_neg (by omega)]⟩
@@ -675,20 +672,6 @@ theorem setSliceBool_spec (h : Heap) (p : PBA) (lo hi : Option Int) (t : PBA)
     refine ⟨_, by simp [setSliceBool, ht, hwt.pyLen, hn, hf, bind, Except.bind, pure, Except.pure]; rfl, ?_⟩
     exact applyParts_rewrites h t hwt f hf _ _ _ _ (fun _ _ _ => rfl) (fun _ _ _ => rfl)
       (fun _ _ _ _ _ _ _ x t _ ht => truefalse_getLsbD v t ht)
-
-theorem setSlicePBA_spec (h : Heap) (p : PBA) (lo hi : Option Int) (t q : PBA)
-    (ht : slice p lo hi = .ok t) (hwt : WF h t) (hq : WF h q)
-    (hs : q.start = t.start) (he : q.stop = t.stop) (hd : Disjoint t q) :
-    ∃ h', setSlicePBA h p lo hi q = .ok h' ∧ Rewrites h h' t (fun k _ => opnd h t q k) := by
-  by_cases hn : t.n = 0
-  · exact ⟨h, by simp [setSlicePBA, ht, hwt.pyLen, hn, bind, Except.bind, pure, Except.pure],
-      Rewrites.refl_empty h t _ hn⟩
-  · obtain ⟨f, g, h', hf, hg, e, R⟩ := combinePBA_spec h t q hwt hq hs he hd (fun _ o => o) (fun _ o => o)
-      (fun _ _ _ _ => rfl)
-    refine ⟨h', ?_, R⟩
-    simp [setSlicePBA, ht, hwt.pyLen, hn, hf, hg, hs, he, bind, Except.bind]
-    exact e
-
 
 theorem packBits_length (l : List Bool) : (packBits l).length = (l.length + 7) / 8 := by simp [packBits]
 
@@ -1039,36 +1022,6 @@ theorem toBools_append {h : Heap} {p : PBA} (hwf : WF h p) (d : List Byte) :
   simp only [PBA.A, PBA.n] at *
   omega
 
-theorem init_sized_spec (h : Heap) (n s : Nat) (hs : s < 8) :
-    ∃ p, init h (some (n : Int)) none (some (s : Int)) none =
-        .ok (h ++ (List.replicate ((n + s + 7) / 8) (0 : Byte)).toArray, p) ∧
-      WF (h ++ (List.replicate ((n + s + 7) / 8) (0 : Byte)).toArray) p ∧ p.own = true ∧ p.start = s ∧ p.n = n ∧
-      p.off = h.size ∧
-      toBools (h ++ (List.replicate ((n + s + 7) / 8) (0 : Byte)).toArray) p = List.replicate n false := by
-  have hlen : (((n : Int) + s) / 8 + if ((n : Int) + s) % 8 = 0 then 0 else 1).toNat = (n + s + 7) / 8 := by
-    split <;> omega
-  have hpos : ¬ (((n : Int) + s) / 8 + if ((n : Int) + s) % 8 = 0 then 0 else 1) < 0 := by
-    split <;> omega
-  refine ⟨⟨h.size, (n + s + 7) / 8, s, (n : Int) + s, true⟩, ?_, ?_, rfl, rfl, ?_, rfl, ?_⟩
-  · simp only [init, checkStart, bind, Except.bind, pure, Except.pure, Option.isSome_some, Option.isSome_none,
-      Bool.and_false, Bool.false_eq_true, if_false, Option.getD_some, beq_iff_eq, Int.toNat_natCast]
-    rw [if_neg (by simp; omega)]
-    simp only [hpos, if_false, hlen, Array.replicate_eq_toArray_replicate]
-  · refine ⟨hs, ?_, ?_, ?_, ?_⟩ <;> simp <;> omega
-  · simp [PBA.n]
-  · rw [toBools_eq _ _ (by refine ⟨hs, ?_, ?_, ?_, ?_⟩ <;> simp <;> omega)]
-    have hn : (⟨h.size, (n + s + 7) / 8, s, (n : Int) + s, true⟩ : PBA).n = n := by simp [PBA.n]
-    rw [hn]
-    apply List.ext_getElem?
-    intro i
-    by_cases hi : i < n
-    · simp only [List.getElem?_map, List.getElem?_range hi, Option.map_some, List.getElem?_replicate, hi, if_true, PBA.A]
-      have e : 8 * h.size + s + i = 8 * (h.size + (s + i) / 8) + (s + i) % 8 := by omega
-      rw [e, hbit_append_new _ _ _ _ (Nat.mod_lt _ (by omega))]
-      simp [List.getD_eq_getElem?_getD, List.getElem?_replicate]
-      split <;> simp
-    · simp [hi]
-
 theorem fromBool_spec (h : Heap) (arr : List Bool) (s : Nat) (hs : s < 8) (start : Option Int)
     (hst : start = some (s : Int) ∨ (start = none ∧ s = 0)) :
     ∃ p, fromBool h arr start = .ok (h ++ (fromBoolData s arr).toArray, p) ∧
@@ -1368,92 +1321,6 @@ theorem sum_spec (h : Heap) (p : PBA) (hwf : WF h p) : sum h p = .ok ((toBools h
 /-- the padding bits after the last element, inside the view's own bytes, are zero -/
 def PadZero (h : Heap) (p : PBA) : Prop := ∀ k, p.A + p.n ≤ k → k < 8 * (p.off + p.len) → hbit h k = false
 
-theorem resize_spec (h : Heap) (p : PBA) (hwf : WF h p) (newsize : Nat)
-    (hge : p.n ≤ newsize) (hpad : PadZero h p) :
-    ∃ h' p', resize h p newsize = ((h', p'), none) ∧ WF h' p' ∧ p'.n = newsize ∧
-      (p.own = true ∨ p.n < newsize → p'.own = true) ∧
-      toBools h' p' = toBools h p ++ List.replicate (newsize - p.n) false ∧
-      (∀ k, k < 8 * h.size → hbit h' k = hbit h k) ∧ h.size ≤ h'.size := by
-  have hs := hwf.stop_eq
-  have hwf' := hwf
-  obtain ⟨a1, a2, a3, a4, a5⟩ := hwf
-  have hsize : p.size = (p.n : Int) := by simp only [PBA.size, PBA.n]; omega
-  by_cases heq : newsize = p.n
-  · subst heq
-    refine ⟨h, p, ?_, hwf', rfl, fun hh => hh.elim id (fun hlt => absurd hlt (Nat.lt_irrefl _)), by simp,
-      fun _ _ => rfl, Nat.le_refl _⟩
-    unfold resize
-    rw [if_neg (by rw [hsize]; omega), if_pos (by rw [hsize]; simp)]
-  · have hlt : p.n < newsize := by omega
-    have hnd : (if ((newsize : Int) + p.start) % 8 != 0 then ((newsize : Int) + p.start) / 8 + 1
-        else ((newsize : Int) + p.start) / 8).toNat = (newsize + p.start + 7) / 8 := by
-      split <;> rename_i hc <;> simp at hc <;> omega
-    by_cases hsame : p.own = true ∧ (newsize + p.start + 7) / 8 = p.len
-    · -- an owning buffer with the same number of bytes: only `_stop_index` moves
-      have hwn : WF h { p with stop := (newsize : Int) + p.start } := ⟨a1, by simp; omega, by simp; omega, by simp; omega, a5⟩
-      refine ⟨h, { p with stop := (newsize : Int) + p.start }, ?_, hwn, by simp [PBA.n], fun _ => hsame.1, ?_,
-        fun _ _ => rfl, Nat.le_refl _⟩
-      · unfold resize
-        rw [if_neg (by rw [hsize]; omega), if_neg (by rw [hsize]; simp; omega)]
-        simp only [hnd, hsame.1, hsame.2, beq_self_eq_true, Bool.and_self, if_true]
-      · apply List.ext_getElem?
-        intro i
-        rw [toBools_getElem? _ _ hwn, List.getElem?_append, toBools_length _ _ hwf', toBools_getElem? _ _ hwf']
-        have hn' : ({ p with stop := (newsize : Int) + p.start } : PBA).n = newsize := by simp [PBA.n]
-        have hA' : ({ p with stop := (newsize : Int) + p.start } : PBA).A = p.A := rfl
-        rw [hn', hA']
-        by_cases c1 : i < p.n
-        · simp [c1, show i < newsize by omega]
-        · by_cases c2 : i < newsize
-          · simp only [c1, c2, if_true, if_false, List.getElem?_replicate]
-            rw [if_pos (by omega), hpad _ (by omega) (by simp only [PBA.A]; omega)]
-          · simp [c1, c2, List.getElem?_replicate]; omega
-    · -- copy and/or reallocation: the buffer moves to the end of the heap
-      have hgt : p.len ≤ (newsize + p.start + 7) / 8 := by omega
-      let nd := (newsize + p.start + 7) / 8
-      let bytes := ((p.data h).take nd) ++ List.replicate (nd - p.len) (0 : Byte)
-      have hdl := data_length h p a5
-      have hbl : bytes.length = nd := by simp [bytes, hdl]; omega
-      let p' : PBA := ⟨h.size, nd, p.start, (newsize : Int) + p.start, true⟩
-      have hwn : WF (h ++ bytes.toArray) p' :=
-        ⟨a1, by simp [p']; omega, by simp [p', nd]; omega, by simp [p', nd]; omega, by simp [p', hbl]⟩
-      refine ⟨h ++ bytes.toArray, p', ?_, hwn, by simp [p', PBA.n], fun _ => rfl, ?_,
-        fun k hk => hbit_append_old h bytes k hk, by simp⟩
-      · unfold resize
-        rw [if_neg (by rw [hsize]; omega), if_neg (by rw [hsize]; simp; omega)]
-        simp only [hnd]
-        rw [if_neg (by simp only [Bool.and_eq_true, beq_iff_eq]; exact hsame)]
-      · apply List.ext_getElem?
-        intro i
-        rw [toBools_getElem? _ _ hwn, List.getElem?_append, toBools_length _ _ hwf', toBools_getElem? _ _ hwf']
-        have hn' : p'.n = newsize := by simp [p', PBA.n]
-        have hA' : p'.A = 8 * h.size + p.start := rfl
-        rw [hn', hA']
-        have hbyte : ∀ j t, t < 8 → (bytes.getD j 0).getLsbD t = if j < p.len then hbit h (8 * (p.off + j) + t) else false := by
-          intro j t ht
-          simp only [bytes, List.getD_eq_getElem?_getD, List.getElem?_append, List.length_take, hdl]
-          by_cases cj : j < p.len
-          · have : j < min nd p.len := by omega
-            simp only [this, if_true, cj, List.getElem?_take, show j < nd by omega, data_getElem? h p a5,
-              Option.getD_some, hbit_byte _ _ _ ht]
-          · have : ¬ j < min nd p.len := by omega
-            simp only [this, if_false, cj, List.getElem?_replicate]
-            split <;> simp
-        have e : 8 * h.size + p.start + i = 8 * (h.size + (p.start + i) / 8) + (p.start + i) % 8 := by omega
-        rw [e, hbit_append_new _ _ _ _ (Nat.mod_lt _ (by omega)), hbyte _ _ (Nat.mod_lt _ (by omega))]
-        by_cases c1 : i < p.n
-        · have : (p.start + i) / 8 < p.len := by omega
-          simp only [c1, show i < newsize by omega, if_true, this]
-          congr 2; simp only [PBA.A]; omega
-        · by_cases c2 : i < newsize
-          · have c3 : i - p.n < newsize - p.n := by omega
-            simp only [c1, c2, c3, if_true, if_false, List.getElem?_replicate]
-            by_cases c4 : (p.start + i) / 8 < p.len
-            · rw [if_pos c4, hpad _ (by simp only [PBA.A]; omega) (by omega)]
-            · rw [if_neg c4]
-          · have c3 : ¬ i - p.n < newsize - p.n := by omega
-            simp [c1, c2, c3]
-
 /-- how many of the three parts contain bit `k` (counted from bit 0 of `self._data[0]`) -/
 def FML.cover (f : FML) (len : Nat) (k : Nat) : Nat :=
   (if f.first.arr.isSome ∧ k / 8 = 0 ∧ f.first.lo ≤ k % 8 ∧ k % 8 < f.first.hi then 1 else 0) +
@@ -1594,31 +1461,6 @@ theorem toBools_rewrites_frame {h h' : Heap} {v w : PBA} {F} (hw : WF h w) (R : 
   have := List.mem_range.mp hi
   rw [R.bit, if_neg (by omega)]
 
-/-- "set the True ones, then clear the False ones": exact result of index assignment. -/
-theorem setIdxArr_spec (h : Heap) (p : PBA) (hwf : WF h p) (idx : List Nat) (vals : List Bool)
-    (hlen : vals.length = idx.length) (hr : ∀ i ∈ idx, i < p.n) :
-    ∃ h', setIdxArr h p (idx.map Int.ofNat) vals = (h', none) ∧
-      Rewrites h h' p (fun k x =>
-        (x || hits p ((((idx.map Int.ofNat).zip vals).filter (·.2)).map (·.1)) k) &&
-          !hits p ((((idx.map Int.ofNat).zip vals).filter (!·.2)).map (·.1)) k) := by
-  by_cases hne : idx = []
-  · subst hne
-    exact ⟨h, rfl, rfl, fun k => by simp [hits]⟩
-  · have hr' := inRange_ofNat p.n idx hr
-    have hsub : ∀ (q : Int × Bool → Bool), InRange p.n ((((idx.map Int.ofNat).zip vals).filter q).map (·.1)) := by
-      intro q l hl
-      obtain ⟨iv, hiv, rfl⟩ := List.mem_map.mp hl
-      exact hr' iv.1 (List.of_mem_zip (List.mem_filter.mp hiv).1).1
-    obtain ⟨h1, e1, R1⟩ := setBits_spec h p hwf _ (hsub (·.2))
-    obtain ⟨h2, e2, R2⟩ := clearBits_spec h1 p (R1.wf hwf) _ (hsub (!·.2))
-    refine ⟨h2, ?_, R2.size.trans R1.size, fun k => ?_⟩
-    · simp only [setIdxArr, Bool.false_and, Bool.false_eq_true, if_false, List.isEmpty_iff, List.map_eq_nil_iff, hne,
-        List.length_map, hlen, bne_self_eq_false, e1, e2]
-    · rw [R2.bit, R1.bit]
-      by_cases c : p.A ≤ k ∧ k < p.A + p.n
-      · simp only [c, and_self, if_true]
-      · simp only [c, if_false]
-
 theorem getInt_spec (h : Heap) (p : PBA) (hwf : WF h p) (i : Nat) (hi : i < p.n) :
     getInt h p i = .ok ((toBools h p).getD i false) := by
   have := testBits_spec h p hwf [(i : Int)] (by intro l hl; simp at hl; subst hl; omega)
@@ -1757,64 +1599,6 @@ theorem aligned_counts (h : Heap) (p : PBA) (hwf : WF h p) (h0 : p.start = 0) (h
       intro t _
       rw [hx, if_neg (by omega)]
     rw [this]; rfl
-
-theorem sumShaped_none (h : Heap) (p : PBA) (hwf : WF h p) (h0 : p.start = 0) (h8 : p.stop % 8 = 0)
-    (init : List Nat) (c : Nat) (hprod : prodL (init ++ [8 * c]) = p.n) :
-    sumShaped h p (init ++ [8 * c]) none = .ok ([], [(toBools h p).count true]) := by
-  obtain ⟨hn, ht, hl⟩ := aligned_counts h p hwf h0 h8
-  have hs := hwf.stop_eq
-  have hsize : p.size = (p.n : Int) := by simp only [PBA.size]; omega
-  have hnew : (init ++ [8 * c]).set ((init ++ [8 * c]).length - 1) (8 * c / 8) = init ++ [c] := by
-    simp
-  have hpl : prodL (init ++ [c]) = p.len := by
-    rw [prodL_append_single] at hprod ⊢
-    have : prodL init * (8 * c) = 8 * (prodL init * c) := by rw [Nat.mul_left_comm]
-    omega
-  have hsum : ((p.data h).map fun b => (bitCount b).toNat).sum = (toBools h p).count true := by
-    rw [data_eq_map h p hwf.in_heap, List.map_map]
-    have := cnt_bytes h p.off p.len
-    show ((List.range p.len).map fun i => (bitCount (rdB h (p.off + i))).toNat).sum = _
-    rw [this, toBools_count h p hwf, hn]
-    simp only [PBA.A, h0]; congr 1; omega
-  have h8c : 8 * c / 8 = c := by omega
-  have h8m : 8 * c % 8 = 0 := by omega
-  simp [sumShaped, h0, h8, pure, Except.pure, hprod, hsize, List.getLast?_append,
-    hpl, hl, hsum, h8c, h8m]
-
-theorem sumShaped_last (h : Heap) (p : PBA) (hwf : WF h p) (h0 : p.start = 0) (h8 : p.stop % 8 = 0)
-    (init : List Nat) (c : Nat) (hprod : prodL (init ++ [8 * c]) = p.n) (a : Int)
-    (ha : a = -1 ∨ (a = (init.length : Int) ∧ init ≠ [])) :
-    sumShaped h p (init ++ [8 * c]) (some a) =
-      .ok (init, sumAxis (bitsNat (toBools h p)) (init ++ [8 * c]) init.length) := by
-  obtain ⟨hn, ht, hl⟩ := aligned_counts h p hwf h0 h8
-  have hs := hwf.stop_eq
-  have hsize : p.size = (p.n : Int) := by simp only [PBA.size]; omega
-  have hpl : prodL (init ++ [c]) = p.len := by
-    rw [prodL_append_single] at hprod ⊢
-    have : prodL init * (8 * c) = 8 * (prodL init * c) := by rw [Nat.mul_left_comm]
-    omega
-  have h8c : 8 * c / 8 = c := by omega
-  have h8m : 8 * c % 8 = 0 := by omega
-  have hax := sumAxis_last_packed (bitsNat (toBools h p)) ((p.data h).map fun b => (bitCount b).toNat) init c ht
-  have hlen : 0 < init.length ∨ init = [] := by cases init <;> simp
-  have hk : (if a < 0 then a + ((init.length : Int) + 1) else a) = (init.length : Int) := by
-    rcases ha with rfl | ⟨rfl, _⟩
-    · simp; omega
-    · rw [if_neg (by omega)]
-  have hge : ¬ (a ≥ (init.length : Int) + 1) := by rcases ha with rfl | ⟨rfl, _⟩ <;> omega
-  have hne0 : ¬ (a = 0) := by
-    rcases ha with rfl | ⟨rfl, hne⟩
-    · omega
-    · cases init with
-      | nil => exact absurd rfl hne
-      | cons x xs => simp; omega
-  simp [sumShaped, h0, h8, bind, Except.bind, pure, Except.pure, hprod, hsize, List.getLast?_append,
-    hpl, hl, h8c, h8m, hk, hge, hne0, hax]
-  have e1 : ¬ ((init.length : Int) < 0) := by omega
-  have e2 : (init ++ [c]).eraseIdx init.length = init := by
-    rw [List.eraseIdx_append_of_length_le (Nat.le_refl _)]; simp
-  simp [e1, e2]
-
 
 /-- element-wise combination with the aligned operand, as lists -/
 theorem zipWith_toBools (h : Heap) (p q : PBA) (hp : WF h p) (hq : WF h q) (hs : q.start = p.start)
